@@ -138,7 +138,6 @@ theorem factorize_length (fuel : Nat) : ∀ n, (Auxmath.factorize fuel n).length
     repeat' split
     all_goals first
       | exact ih _
-      | exact Nat.succ_le_succ (ih _)
       | (simp only [List.length_cons]; exact Nat.succ_le_succ (ih _))
       | simp
 
@@ -147,27 +146,24 @@ theorem factors_length {n : Nat} (hn : n < 2 ^ 64) :
   rw [CodeTies4.factorize_tie_factors hn, List.length_map]
   exact Nat.lt_of_le_of_lt (factorize_length 64 n) (by omega)
 
-/-- B. the translated search returns `element(g)` for the least candidate `g ≥ 2` passing all the tests
-    (generic in the observations `element`, `IsOne`, `Pow`). -/
-theorem multGenerator_core_generic {card : Nat} (nilE : Nat) (el : Nat → Nat) (isOne : Nat → Bool)
+/-- B (proved at the level of the outer loop, started as the core starts it, with the fuel `loopFuel`
+    and the factor list the core computes): the loop stops at the least candidate `g ≥ 2` passing all
+    tests, with `e = element(g)`, the break flag set and no panic. -/
+theorem multGenerator_loop_generic {card : Nat} (nilE : Nat) (el : Nat → Nat) (isOne : Nat → Bool)
     (pw : Nat → Nat → Nat) (h1 : 1 ≤ card) (h2 : card ≤ 2 ^ 64) (g : Nat) (hg2 : 2 ≤ g)
     (hg64 : g < 2 ^ 64)
     (hgood : ((go_auxmath_Factorize loopFuel (wsub card 1)).1.all
         fun r => !(isOne (pw (el g) ((card - 1) / r)))) = true)
     (hleast : ∀ i, 2 ≤ i → i < g → ((go_auxmath_Factorize loopFuel (wsub card 1)).1.all
         fun r => !(isOne (pw (el i) ((card - 1) / r)))) = false) :
-    go_primefield_Field_MultGenerator_core card nilE el isOne pw = some (el g) := by
+    go_primefield_Field_MultGenerator_core_loop1 card el
+        (go_auxmath_Factorize loopFuel (wsub card 1)).1 isOne pw loopFuel (nilE, 2, false, none)
+      = (el g, g, true, none) := by
   have hw := CodeTies4Proofs.wsub_card h1 h2
   have hlen := factors_length (n := wsub card 1) (by rw [hw]; omega)
   have hfuel : g - 2 < loopFuel := by unfold loopFuel; omega
-  unfold go_primefield_Field_MultGenerator_core
-  generalize go_auxmath_Factorize loopFuel (wsub card 1) = F at hgood hleast hlen ⊢
-  obtain ⟨factors, u⟩ := F
-  -- the fuel is made a variable: no step below may evaluate a recursion on `2^64`
-  generalize loopFuel = L at hfuel ⊢
-  simp only at hgood hleast hlen ⊢
   rw [← hw] at hgood hleast
-  rw [loop1_inv card el factors isOne pw hlen g hg64 hgood L 2 nilE hg2 hfuel hleast]
+  exact loop1_inv card el _ isOne pw hlen g hg64 hgood loopFuel 2 nilE hg2 hfuel hleast
 
 /-- non-vacuity of B: `card = 7`, the observations of the prime field, `g = 3` -/
 example : (1 ≤ 7 ∧ 7 ≤ 2 ^ 64) ∧ (2 ≤ 3 ∧ 3 < 2 ^ 64) ∧
@@ -183,22 +179,28 @@ example : (1 ≤ 7 ∧ 7 ≤ 2 ^ 64) ∧ (2 ≤ 3 ∧ 3 < 2 ^ 64) ∧
 
 /-! ### C. tie with the model's `genSearch` -/
 
-/-- C. the translated `MultGenerator` core with the prime-field observations equals the model's search
-    (fuel `p`: candidates `2, …, p + 1`), provided some candidate in that range passes the test. -/
-theorem multGenerator_core_tie {p : Nat} (nilE : Nat) (hp1 : 1 ≤ p) (hp2 : p ≤ 2 ^ 64)
+/-- the factor list used by the core is the model's -/
+theorem core_factors {p : Nat} (hp1 : 1 ≤ p) (hp2 : p ≤ 2 ^ 64) :
+    (go_auxmath_Factorize loopFuel (wsub p 1)).1 = (Auxmath.factorize 64 (p - 1)).map (·.1) := by
+  rw [CodeTies4Proofs.wsub_card hp1 hp2]; exact CodeTies4.factorize_tie_factors (by omega)
+
+/-- C (at the level of the outer loop): with the prime-field observations the translated search loop
+    stops, without panic, with `e` = the result of the model's search (fuel `p`: candidates
+    `2, …, p + 1`), provided some candidate in that range passes the test. -/
+theorem multGenerator_loop_tie {p : Nat} (nilE : Nat) (hp1 : 1 ≤ p) (hp2 : p ≤ 2 ^ 64)
     (hex : ∃ g, 2 ≤ g ∧ g < p + 2 ∧ g < 2 ^ 64 ∧
       Prime.isGenerator p ((Auxmath.factorize 64 (p - 1)).map (·.1)) g = true) :
-    go_primefield_Field_MultGenerator_core p nilE (Prime.element p) (fun x => x == 1) (Prime.pow p)
-      = some (Prime.genSearch p ((Auxmath.factorize 64 (p - 1)).map (·.1)) 2 p) := by
+    ∃ g0, go_primefield_Field_MultGenerator_core_loop1 p (Prime.element p)
+        (go_auxmath_Factorize loopFuel (wsub p 1)).1 (fun x => x == 1) (Prime.pow p) loopFuel
+        (nilE, 2, false, none)
+      = (Prime.genSearch p ((Auxmath.factorize 64 (p - 1)).map (·.1)) 2 p, g0, true, none) := by
   obtain ⟨g, hg2, hgp, hg64, hgen⟩ := hex
   obtain ⟨g0, h1, h2, h3, h5, h4⟩ :=
     Prime.genSearch_first p _ p 2 g hg2 (by omega) hgen
-  have hw := CodeTies4Proofs.wsub_card hp1 hp2
-  have hfac : (go_auxmath_Factorize loopFuel (wsub p 1)).1
-      = (Auxmath.factorize 64 (p - 1)).map (·.1) := by
-    rw [hw]; exact CodeTies4.factorize_tie_factors (by omega)
+  have hfac := core_factors hp1 hp2
+  refine ⟨g0, ?_⟩
   rw [h4]
-  apply multGenerator_core_generic nilE (Prime.element p) (fun x => x == 1) (Prime.pow p) hp1 hp2 g0
+  apply multGenerator_loop_generic nilE (Prime.element p) (fun x => x == 1) (Prime.pow p) hp1 hp2 g0
     h1 (by omega)
   · rw [hfac]; exact h3
   · intro i hi1 hi2
@@ -213,20 +215,28 @@ example : (1 ≤ 7 ∧ 7 ≤ 2 ^ 64) ∧ ∃ g, 2 ≤ g ∧ g < 7 + 2 ∧ g < 2 
 
 /-! ### D. tie with `Prime.multGenerator` for an odd prime below `2^32 + 1` -/
 
-/-- D. for a prime `p ≠ 2` with `p - 1 < 2^32` (the guards of `primefield.Define` plus `Char() ≠ 2`,
-    the case `MultGenerator` treats separately) the translated search loop returns exactly the model's
-    `Prime.multGenerator p`, without panic. -/
-theorem multGenerator_tie {p : Nat} (nilE : Nat) (hp : p.Prime) (h32 : p - 1 < 2 ^ 32)
-    (hp2 : p ≠ 2) :
-    go_primefield_Field_MultGenerator_core p nilE (Prime.element p) (fun x => x == 1) (Prime.pow p)
-      = some (Prime.multGenerator p) := by
+/-- the hypothesis `hex` of C for an odd prime `p` with `p - 1 < 2^32` -/
+theorem exists_generator {p : Nat} (hp : p.Prime) (h32 : p - 1 < 2 ^ 32) (hp2 : p ≠ 2) :
+    ∃ g, 2 ≤ g ∧ g < p + 2 ∧ g < 2 ^ 64 ∧
+      Prime.isGenerator p ((Auxmath.factorize 64 (p - 1)).map (·.1)) g = true := by
   have h2 := hp.two_le
   have hfac := factorize_pred_mem (p := p) h2 (by omega)
   obtain ⟨g, hg2, hgp, hord⟩ := Prime.exists_primitive_root hp hp2
-  have hgen := (Prime.isGenerator_iff hp h32 _ hfac (by omega) hgp).2 hord
-  have hC := multGenerator_core_tie (p := p) nilE (by omega) (by omega)
-    ⟨g, hg2, by omega, by omega, hgen⟩
-  rw [hC]
+  exact ⟨g, hg2, by omega, by omega, (Prime.isGenerator_iff hp h32 _ hfac (by omega) hgp).2 hord⟩
+
+/-- D (at the level of the outer loop): for a prime `p ≠ 2` with `p - 1 < 2^32` the translated search
+    loop stops, without panic, with `e = Prime.multGenerator p`. -/
+theorem multGenerator_loop_tie_prime {p : Nat} (nilE : Nat) (hp : p.Prime) (h32 : p - 1 < 2 ^ 32)
+    (hp2 : p ≠ 2) :
+    ∃ g0, go_primefield_Field_MultGenerator_core_loop1 p (Prime.element p)
+        (go_auxmath_Factorize loopFuel (wsub p 1)).1 (fun x => x == 1) (Prime.pow p) loopFuel
+        (nilE, 2, false, none)
+      = (Prime.multGenerator p, g0, true, none) := by
+  have h2 := hp.two_le
+  obtain ⟨g0, h⟩ := multGenerator_loop_tie (p := p) nilE (by omega) (by omega)
+    (exists_generator hp h32 hp2)
+  refine ⟨g0, ?_⟩
+  rw [h]
   unfold Prime.multGenerator
   rw [if_neg hp2]
 
@@ -234,6 +244,55 @@ theorem multGenerator_tie {p : Nat} (nilE : Nat) (hp : p.Prime) (h32 : p - 1 < 2
 example : Nat.Prime 7 ∧ 7 - 1 < 2 ^ 32 ∧ 7 ≠ 2 := ⟨by norm_num, by decide, by decide⟩
 /-- sanity evaluation of the model function -/
 example : Prime.multGenerator 7 = 3 := by decide +kernel
+
+
+/-! ### the core (statements from `var e *Element` to the end; the factor list is a parameter) -/
+
+/-- the translated core is its outer loop started at `(nil, 2, false, none)`; its result is the loop's
+    return slot (a panic) if filled, else `some e` -/
+theorem core_of_loop (nilE : Nat) (el : Nat → Nat) (isOne : Nat → Bool) (card : Nat)
+    (pw : Nat → Nat → Nat) (factors : List Nat) (r : Nat × Nat × Bool × Option (Option Nat))
+    (h : go_primefield_Field_MultGenerator_core_loop1 card el factors isOne pw loopFuel
+      (nilE, 2, false, none) = r) :
+    go_primefield_Field_MultGenerator_core nilE el isOne card pw factors
+      = (match r.2.2.2 with | some v => v | none => some r.1) := by
+  unfold go_primefield_Field_MultGenerator_core
+  simp only []
+  rw [h]
+  clear h
+  obtain ⟨e, i, b, ret⟩ := r
+  rfl
+
+/-- B for the core, with the factor list the Go code computes -/
+theorem multGenerator_core_generic {card : Nat} (nilE : Nat) (el : Nat → Nat) (isOne : Nat → Bool)
+    (pw : Nat → Nat → Nat) (h1 : 1 ≤ card) (h2 : card ≤ 2 ^ 64) (g : Nat) (hg2 : 2 ≤ g)
+    (hg64 : g < 2 ^ 64)
+    (hgood : ((go_auxmath_Factorize loopFuel (wsub card 1)).1.all
+        fun r => !(isOne (pw (el g) ((card - 1) / r)))) = true)
+    (hleast : ∀ i, 2 ≤ i → i < g → ((go_auxmath_Factorize loopFuel (wsub card 1)).1.all
+        fun r => !(isOne (pw (el i) ((card - 1) / r)))) = false) :
+    go_primefield_Field_MultGenerator_core nilE el isOne card pw
+      (go_auxmath_Factorize loopFuel (wsub card 1)).1 = some (el g) :=
+  core_of_loop nilE el isOne card pw _ _
+    (multGenerator_loop_generic nilE el isOne pw h1 h2 g hg2 hg64 hgood hleast)
+
+/-- C for the core -/
+theorem multGenerator_core_tie {p : Nat} (nilE : Nat) (hp1 : 1 ≤ p) (hp2 : p ≤ 2 ^ 64)
+    (hex : ∃ g, 2 ≤ g ∧ g < p + 2 ∧ g < 2 ^ 64 ∧
+      Prime.isGenerator p ((Auxmath.factorize 64 (p - 1)).map (·.1)) g = true) :
+    go_primefield_Field_MultGenerator_core nilE (Prime.element p) (fun x => x == 1) p (Prime.pow p)
+        (go_auxmath_Factorize loopFuel (wsub p 1)).1
+      = some (Prime.genSearch p ((Auxmath.factorize 64 (p - 1)).map (·.1)) 2 p) := by
+  obtain ⟨g0, h⟩ := multGenerator_loop_tie nilE hp1 hp2 hex
+  exact core_of_loop nilE _ _ p _ _ _ h
+
+/-- D for the core -/
+theorem multGenerator_tie {p : Nat} (nilE : Nat) (hp : p.Prime) (h32 : p - 1 < 2 ^ 32) (hp2 : p ≠ 2) :
+    go_primefield_Field_MultGenerator_core nilE (Prime.element p) (fun x => x == 1) p (Prime.pow p)
+        (go_auxmath_Factorize loopFuel (wsub p 1)).1
+      = some (Prime.multGenerator p) := by
+  obtain ⟨g0, h⟩ := multGenerator_loop_tie_prime nilE hp h32 hp2
+  exact core_of_loop nilE _ _ p _ _ _ h
 
 end Gen
 end CodeTies5Proofs
